@@ -554,3 +554,110 @@ def prove_inrange(ctx, sess, kt, names, replay_fn, guard=True, what=""):
     seen[key] = seen.get(key, 0) + 1
     nm = f"inrange/{ob.where.split(':')[-1]}/{ob.info[1]}[{ob.info[2]}]" + (f"#{seen[key]}" if seen[key] > 1 else "")
     ctx.prove(sess, nm, ob.strict, And(ob.guard, guard), names=names, replay=replay_fn, desc=f"{what}: index outside [0, dim) at {ob.where} ({ob.info[1]} dim {ob.info[2]}): wrapped / foreign-cell access")
+
+
+# ------------------------------------------------------------------------------------------------ contact row assembly (constraint.py)
+
+UPD_LAYOUTS = {
+  # name: (nworld, world, nacon, conid, first row e0, spare rows after)
+  "A": (2, 1, 2, 1, 2, 1),
+  "B": (1, 0, 1, 0, 0, 0),
+}
+
+
+def contact_nrows(elliptic, dim):
+  return dim if (elliptic or dim == 1) else 2 * (dim - 1)
+
+
+class ContactUpdate:
+  """The threads (conid, dimid) of constraint._efc_contact_update[_flex] for ONE contact, concrete bookkeeping (contact listed,
+  CONSTRAINT type, condim, efc_address[c, k] = e0+k, geom ids >= 0 so the flex-body paths of the flex kernel are not taken),
+  all float inputs symbolic.  calls[k] = (guard, argument list) of the thread's _efc_row call (None unless exactly one);
+  the real _efc_row body is executed, so D[k] / typ[k] / ids[k] are what the kernel stores in the contact's k-th row."""
+
+  def __init__(self, elliptic, dim, adhesion, flex, layout="A", mode="poly"):
+    from mujoco_warp._src import constraint, types
+
+    core.DIVMODE[0] = mode
+    self.elliptic, self.dim, self.flex = elliptic, dim, flex
+    cone = types.ConeType.ELLIPTIC if elliptic else types.ConeType.PYRAMIDAL
+    self.builder = "_efc_contact_update_flex" if flex else "_efc_contact_update"
+    self.k = getattr(constraint, self.builder)(cone, adhesion)
+    self.locator = f"mujoco_warp._src.constraint:{self.builder}(types.ConeType.{'ELLIPTIC' if elliptic else 'PYRAMIDAL'}, {adhesion})"
+    nworld, w, ncon, c, e0, spare = UPD_LAYOUTS[layout]
+    n = contact_nrows(elliptic, dim)
+    self.n, self.w, self.c, self.e0 = n, w, c, e0
+    njmax = e0 + n + spare
+    nadr = max(1, 2 * (dim - 1))
+    ngeom = nbody = 3
+    special = {
+      "opt_timestep": [nworld], "opt_impratio_invsqrt": [nworld], "body_invweight0": [nworld, nbody], "geom_bodyid": [ngeom],
+      "contact_efc_address_in": [ncon, nadr], "efc_Jqvel_in": [nworld, njmax], "nacon_in": [1], "flexvert_xpos_in": [nworld, 2],
+    }  # fmt: skip
+    shapes = {}
+    for a in self.k.adj.args:
+      if not kh.is_array_type(a.type):
+        continue
+      if a.label in special:
+        shapes[a.label] = special[a.label]
+      elif a.label.startswith("efc_") and a.label.endswith("_out"):
+        shapes[a.label] = [nworld, njmax]
+      elif a.label.startswith("flex"):
+        shapes[a.label] = [2] * a.type.ndim
+      else:
+        shapes[a.label] = [ncon] * a.type.ndim  # per-contact inputs
+    args = kh.make_args(self.k, shapes=shapes, scalars={"opt_disableflags": 0}, mode="dense")
+
+    def setint(label, values):
+      cell = args[label].cell
+      arr = np.asarray(values).reshape(cell.size, cell.ncomp)
+      cell.d = [[int(v) for v in arr[:, kk]] for kk in range(cell.ncomp)]
+
+    for lab, v in args.items():  # every integer input concrete (flex tables are never reached: zeros)
+      if isinstance(v, core.ArrRef) and v.cell.dtype == "int" and not lab.endswith("_out"):
+        setint(lab, np.zeros((v.cell.size, v.cell.ncomp), dtype=int))
+    adr = np.full((ncon, nadr), -1)
+    adr[c, :n] = np.arange(e0, e0 + n)
+    setint("contact_efc_address_in", adr)
+    setint("nacon_in", [ncon])
+    setint("condim_in", [dim] * ncon)
+    setint("worldid_in", [min(i, nworld - 1) if i != c else w for i in range(ncon)])
+    setint("geom_in", [[1, 2]] * ncon)
+    setint("geom_bodyid", [0, 1, 2])
+    setint("type_in", [1] * ncon)  # ContactType.CONSTRAINT
+    for lab in ("flex_in", "elem_in", "vert_in"):
+      if lab in args:
+        setint(lab, [[-1, -1]] * ncon)
+    replay.snapshot_initial(args)
+    self.args = args
+    cells = {v.cell.uid: v.cell for v in args.values() if isinstance(v, core.ArrRef)}
+    snap = {u: cl.snapshot() for u, cl in cells.items()}
+    self.bg, self.calls, self.D, self.typ, self.ids, self.wroteD = [], [], [], [], [], []
+    for kk in range(n):
+      for u, cl in cells.items():
+        cl.restore(snap[u])
+      cap = []
+
+      def hook(interp, frame, a, cap=cap):
+        cap.append((interp.active(frame), list(a)))
+        return interp.call_pyfunc(constraint._efc_row.func, a, name="_efc_row", caller=frame)
+
+      it, _ = kh.run(self.k, args, tid=(c, kk), unroll=16, summaries={constraint._efc_row.key: hook})
+      self.bg += [core.zbool(a) for a in it.assumes]
+      for o in it.obl:
+        if o.kind == "unwind":
+          self.bg.append(core.zbool(Implies(o.guard, o.cond)))
+      self.calls.append(cap[0] if len(cap) == 1 else None)
+      self.D.append(args["efc_D_out"].cell.get((w, e0 + kk)))
+      self.typ.append(args["efc_type_out"].cell.get((w, e0 + kk)))
+      self.ids.append(args["efc_id_out"].cell.get((w, e0 + kk)))
+    for u, cl in cells.items():
+      cl.restore(snap[u])
+    pre = lambda lab, *idx, k=0: args[lab].cell.get(idx, k, snap=args[lab].cell.d0)
+    self.pre = pre
+    self.fr = [pre("friction_in", c, k=i) for i in range(5)]
+    self.imp = pre("opt_impratio_invsqrt", w)
+    self.mu = self.fr[0] * self.imp
+    self.pos = pre("dist_in", c) - pre("includemargin_in", c)
+    self.solimp = [pre("solimp_in", c, k=i) for i in range(5)]
+    self.text = f"layout {layout}: nworld={nworld}, world {w}, contact {c} of {ncon} (geoms 1,2 -> bodies 1,2), rows {e0}..{e0 + n - 1}, njmax={njmax}"
